@@ -65,4 +65,20 @@ CHECKS = {
          "directions: the observed marker must be the lexicographic minimum under (field options, key specificity, level); pass_through at the "
          "winner must return the very object.",
     note="trusted base: the precedence order as stated in the property; markers make the winner directly observable"),
+ "C13": dict(engine="E2 histories", design_ref="6/C13, 5.2",
+    technique="explicit-state BFS over dialect-call histories on real classes (differential twin oracle) + exhaustive format x dialect-option-subset enumeration",
+    text="(a) BFS to depth 3 (4 in thorough) over {to_dict, from_dict} x {no dialect, D1, D2, D3} x {class, parent, subclass} on fresh nested and "
+         "inheritance families in eager / lazy / postponed mode, canonical state = per-class method/stub/dialect-cache contents: every call equals a "
+         "fresh twin whose Config.dialect is that dialect, so no call can depend on earlier dialects or alter the default behaviour. (b) every format "
+         "codec x every subset (size <= 2, thorough <= 3) of the six Dialect options: the document parsed by the format's own library equals the basic "
+         "codec's output under the same dialect, decoder dually.",
+    note="trusted base: vmc/hist.py canonicalisation (argument in DESIGN.md 5.2), vmc/family.py families; the fix commits for Dialect.merge and lazy/postponed dialect compilation are what make it pass"),
+ "C14": dict(engine="E2 histories + E3 schedules", design_ref="6/C14, 5.2, 5.3",
+    technique="explicit-state BFS over call histories on real classes + preemption-bounded exhaustive thread-schedule exploration under a sys.settrace baton scheduler",
+    text="(a) BFS to depth 3 (4) over {to_dict, from_dict, to_jsonb, from_json, to_msgpack, from_msgpack} x {no dialect, D1, D2} x classes of five "
+         "families (nested, inherited, generic with two specialisations, mutually referencing, two formats on one class) x {eager, lazy, postponed} x "
+         "dialect support on/off; oracle = same call on a fresh eager twin; RecursionError/AttributeError count as violations. (b) 13 thread harnesses "
+         "(first calls racing on one fresh family): every interleaving with <= 1 preemption (<= 2 in thorough, 3 on one harness) is executed; every "
+         "thread's outcome and a sequential call afterwards must equal the twin's.",
+    note="atomic step = one line of generated code or the stretch between traced library calls; interleavings inside a step and other interpreters are not covered"),
 }
